@@ -67,6 +67,27 @@ P = {
   note="Trusted: rustc MIR; the splitter's value-level behaviour (which characters end up in the wrapping parts) is not decided here.",
   technique="decision-structure extraction + who-may-write frame rule + dominance ordering of guard/consumers over MIR",
   ref="§4 C17"),
+ "C07": dict(
+  text="The hand-written comparator is extracted from MIR as a 4×4 decision table (constant orderings or u8 comparisons with recorded operand "
+       "order) and checked against the stated class order, ascending numbers and antisymmetry; the extracted table is evaluated exhaustively "
+       "over the finite reachable rank set for being a total pre-order. Provenance identifies the source of every pushed candidate "
+       "(auto-correct with user-before-bundled, dictionary, transliteration, emoticon literal, English, emoji) and the rank constructor it "
+       "uses; dominance orders the sort against pushes, selection look-up and the returned copy; duplicate suppression is checked on the "
+       "stated sources. Decides the ordering *scheme*; not the edit distances themselves.",
+  note="Trusted: edit_distance crate; rustc MIR; assumption that distance×10 < 256 (longest dictionary word 23 code points). The pre-order "
+       "check is an evaluation of the extracted table, not of the program.",
+  technique="decision-table extraction + finite order-theory check of the extracted table + provenance/constructor rule + dominance ordering",
+  ref="§4 C07"),
+ "C18": dict(
+  text="Provenance of the look-up arguments (whole typed text for emoticons, word part for names), dominance order of the two look-ups, "
+       "unconditional push in the emoticon arm and the kept literal in phonetic mode, structural summary of the name arm's iterator chain "
+       "and mapping closure with captured variables substituted (all entries, in order, ranks from 1, wrapped with the parts of the same "
+       "split value as the word), emoji only through the Emoji rank, stable sort wherever the extracted comparator leaves emoji equal, "
+       "table agreement of the fixed-mode cap with the longest Bengali list (recorded finding), accessor plumbing, no shrinking in the "
+       "phonetic builder. Decides the per-table-shape clauses for every table entry at once; not the per-emoticon splitter outcome.",
+  note="Trusted: emojicon's tables (read from the pinned source for the cap rule); rustc MIR; the splitter's value-level behaviour.",
+  technique="provenance + dominance/guard analysis + iterator-chain shape rule + comparator-table × sort-callee rule + dependency table agreement",
+  ref="§4 C18"),
 }
 
 NA_REASON = "rule module not built yet in this round (see DESIGN.md §4 for the planned static rules)"
